@@ -23,6 +23,16 @@ Lemma gen_map_set_guard_agree : model_map_set_go_value_guarded = SwitchGen.map_s
 Proof. vm_compute. reflexivity. Qed.
 Lemma gen_int_string_err_agree : model_int_string_err_returned = SwitchGen.int_string_err_returned.
 Proof. vm_compute. reflexivity. Qed.
+Lemma gen_uint64_number_agree : model_uint64_number_parse_uint = SwitchGen.uint64_number_parse_uint.
+Proof. vm_compute. reflexivity. Qed.
+Lemma gen_enum_exact_first_agree : model_enum_exact_match_first = SwitchGen.enum_exact_match_first.
+Proof. vm_compute. reflexivity. Qed.
+Lemma gen_date_validates_agree : model_date_validates_calendar = SwitchGen.date_validates_calendar.
+Proof. vm_compute. reflexivity. Qed.
+Lemma gen_depth_guard_agree : model_decode_value_depth_guard = SwitchGen.decode_value_depth_guard /\ max_nesting_depth = SwitchGen.max_nesting_depth.
+Proof. vm_compute. split; reflexivity. Qed.
+Lemma gen_decimal_exponent_agree : max_decimal_exponent = SwitchGen.max_decimal_exponent /\ SwitchGen.decimal_exponent_guard = true.
+Proof. vm_compute. split; reflexivity. Qed.
 Lemma gen_set_value_clears_agree : model_set_value_clears_invalid = SwitchGen.set_value_clears_invalid.
 Proof. vm_compute. reflexivity. Qed.
 
@@ -99,12 +109,11 @@ Proof. destruct ts; cbn; intros H; inversion H; subst; reflexivity. Qed.
 (* ---------------------------------------------------------------- scalars *)
 Lemma int_from_go_safe k v : safe (int_from_go k v).
 Proof.
-  destruct v; cbn; auto.
-  - destruct (parse_int_bits min_i64 max_i64 lit); cbn; auto.
-    destruct k; cbn; auto;
-      match goal with |- context[if ?c then _ else _] => destruct c end; cbn; auto.
-  - destruct k; cbn; auto;
-      match goal with |- context[match ?c with Some _ => _ | None => _ end] => destruct c end; cbn; auto.
+  destruct k, v; cbn; auto;
+    repeat match goal with
+           | |- context[match ?c with Some _ => _ | None => _ end] => destruct c
+           | |- context[if ?c then _ else _] => destruct c
+           end; cbn; auto.
 Qed.
 
 Lemma float_from_go_safe orc k v : safe (float_from_go orc k v).
@@ -122,6 +131,7 @@ Proof.
     repeat match goal with
            | |- context[match ?c with Some _ => _ | None => _ end] => destruct c
            | |- context[let '(_, _) := ?c in _] => destruct c
+           | |- context[if ?c then _ else _] => destruct c
            end; cbn; auto.
 Qed.
 
@@ -190,11 +200,11 @@ Section Totality.
 
   (* everything below one level of fuel *)
   Definition level_ok (f : nat) : Prop :=
-    (forall p ts m, (length ts < f)%nat -> okish (length ts) (decode_present orc e me f p ts m)) /\
-    (forall props ts m seen, (length ts < f)%nat -> okish (length ts) (object_body orc e me f props ts m seen)) /\
-    (forall props ts m seen found c, (length ts < f)%nat -> okish (length ts) (oneof_body orc e me f props ts m seen found c)) /\
-    (forall item ts acc, (length ts < f)%nat -> okish (length ts) (array_items orc e me f item ts acc)) /\
-    (forall item ts acc, (length ts < f)%nat -> okish (length ts) (map_items orc e me f item ts acc)).
+    (forall d p ts m, (length ts < f)%nat -> okish (length ts) (decode_present orc e me f d p ts m)) /\
+    (forall d props ts m seen, (length ts < f)%nat -> okish (length ts) (object_body orc e me f d props ts m seen)) /\
+    (forall d props ts m seen found c, (length ts < f)%nat -> okish (length ts) (oneof_body orc e me f d props ts m seen found c)) /\
+    (forall d item ts acc, (length ts < f)%nat -> okish (length ts) (array_items orc e me f d item ts acc)) /\
+    (forall d item ts acc, (length ts < f)%nat -> okish (length ts) (map_items orc e me f d item ts acc)).
 
   Lemma any_body_ok f : forall ts value ty, (length ts < f)%nat ->
     match any_body me f ts value ty with
@@ -237,15 +247,16 @@ Section Totality.
            | H : expect _ _ = Ok _ |- _ => apply expect_len in H
            end.
 
-  Lemma member_with_bind {B} f p ts m seen n
+  Lemma member_with_bind {B} f d p ts m seen n
         (dp : list token -> msg -> outcome (msg * list token))
         (k : msg * list token * list bytes -> outcome (B * list token)) :
     (forall ts m, (length ts < f)%nat -> okish (length ts) (dp ts m)) ->
     (length ts < f)%nat ->
     (forall m' ts' seen', (length ts' <= length ts)%nat -> okish n (k (m', ts', seen'))) ->
-    okish n (obind (member_with dp p ts m seen) k).
+    okish n (obind (member_with d dp p ts m seen) k).
   Proof.
     intros Hdp Hlen Hk. unfold member_with.
+    destruct (max_nesting_depth <? d + 1)%N; [exact I|].
     destruct ts as [|t r]; [exact I|].
     assert (G : okish n (obind (if mem_bytes (p_json p) seen then Err "field is already set"%string
                        else obind (dp (t :: r) m) (fun r0 => Ok (fst r0, snd r0, p_json p :: seen))) k)).
@@ -271,8 +282,8 @@ Section Totality.
   Proof.
     intros (Hdp & Hob & Hoo & Har & Hmp).
     (* decode_present *)
-    assert (Hdp' : forall p ts m, (length ts < S f)%nat -> okish (length ts) (decode_present orc e me (S f) p ts m)).
-    { intros p ts m Hlen. cbn [decode_present]. destruct (p_ty p) as [k|ref|ref|ref|item|item|pb].
+    assert (Hdp' : forall d p ts m, (length ts < S f)%nat -> okish (length ts) (decode_present orc e me (S f) d p ts m)).
+    { intros d p ts m Hlen. cbn [decode_present]. destruct (p_ty p) as [k|ref|ref|ref|item|item|pb].
       - (* scalar *)
         tok_step. destruct (is_delim t); auto.
         apply safe_bind; auto using scalar_from_go_safe. intros v _.
@@ -302,7 +313,7 @@ Section Totality.
         exp_step.
         assert (G : okish (length ts) (with_holder (p_path p) m (fun n h =>
                      let existing := match msg_get n h with Some (VList l) => l | _ => [] end in
-                     obind (array_items orc e me f item a existing) (fun lr =>
+                     obind (array_items orc e me f d item a existing) (fun lr =>
                        obind (expect TCloseArr (snd lr)) (fun r2 =>
                          Ok (msg_set true (p_siblings p) n (VList (fst lr)) h, r2)))))).
         { apply with_holder_okish. intros n h. cbn zeta.
@@ -313,7 +324,7 @@ Section Totality.
         exp_step.
         assert (G : okish (length ts) (with_holder (p_path p) m (fun n h =>
                      let existing := match msg_get n h with Some (VMap l) => l | _ => [] end in
-                     obind (map_items orc e me f item a existing) (fun lr =>
+                     obind (map_items orc e me f d item a existing) (fun lr =>
                        obind (expect TCloseObj (snd lr)) (fun r2 =>
                          Ok (msg_set true (p_siblings p) n (VMap (fst lr)) h, r2)))))).
         { apply with_holder_okish. intros n h. cbn zeta.
@@ -327,14 +338,14 @@ Section Totality.
         destruct ty; auto. destruct value; auto. destruct pb; auto.
         exp_step. cbn. lia. }
     (* object_body *)
-    assert (Hob' : forall props ts m seen, (length ts < S f)%nat -> okish (length ts) (object_body orc e me (S f) props ts m seen)).
-    { intros props ts m seen Hlen. cbn [object_body]. destruct (has_more me ts); [|cbn; lia].
+    assert (Hob' : forall d props ts m seen, (length ts < S f)%nat -> okish (length ts) (object_body orc e me (S f) d props ts m seen)).
+    { intros d props ts m seen Hlen. cbn [object_body]. destruct (has_more me ts); [|cbn; lia].
       tok_step. destruct t; auto. destruct (find_prop props s) as [p|]; auto.
       eapply member_with_bind; [apply Hdp | lia |]. intros m' rest seen' Hm.
       eapply okish_mono; [|apply Hob]; lia. }
     (* oneof_body *)
-    assert (Hoo' : forall props ts m seen found c, (length ts < S f)%nat -> okish (length ts) (oneof_body orc e me (S f) props ts m seen found c)).
-    { intros props ts m seen found c Hlen. cbn [oneof_body]. destruct (has_more me ts).
+    assert (Hoo' : forall d props ts m seen found c, (length ts < S f)%nat -> okish (length ts) (oneof_body orc e me (S f) d props ts m seen found c)).
+    { intros d props ts m seen found c Hlen. cbn [oneof_body]. destruct (has_more me ts).
       - tok_step. destruct t; auto. destruct (bytes_eqb s type_key).
         + tok_step. destruct t; auto. eapply okish_mono; [|apply Hoo]; lia.
         + destruct (find_prop props s) as [p|]; auto.
@@ -342,8 +353,8 @@ Section Totality.
           eapply okish_mono; [|apply Hoo]; lia.
       - apply safe_bind; auto using oneof_post_safe. intros m' _. cbn. lia. }
     (* array_items *)
-    assert (Har' : forall item ts acc, (length ts < S f)%nat -> okish (length ts) (array_items orc e me (S f) item ts acc)).
-    { intros item ts acc Hlen. cbn [array_items]. destruct (has_more me ts); [|cbn; lia].
+    assert (Har' : forall d item ts acc, (length ts < S f)%nat -> okish (length ts) (array_items orc e me (S f) d item ts acc)).
+    { intros d item ts acc Hlen. cbn [array_items]. destruct (has_more me ts); [|cbn; lia].
       destruct item as [k|ref|ref|ref|it|it|pb]; auto.
       - tok_step. destruct (is_delim t); auto.
         apply safe_bind; auto using append_go_value_safe. intros acc' _.
@@ -361,8 +372,8 @@ Section Totality.
         eapply okish_bind; [apply Hoo; lia|]. intros m' r' Hb. cbn [fst snd].
         exp_step. eapply okish_mono; [|apply Har]; lia. }
     (* map_items *)
-    assert (Hmp' : forall item ts acc, (length ts < S f)%nat -> okish (length ts) (map_items orc e me (S f) item ts acc)).
-    { intros item ts acc Hlen. cbn [map_items]. destruct (has_more me ts); [|cbn; lia].
+    assert (Hmp' : forall d item ts acc, (length ts < S f)%nat -> okish (length ts) (map_items orc e me (S f) d item ts acc)).
+    { intros d item ts acc Hlen. cbn [map_items]. destruct (has_more me ts); [|cbn; lia].
       tok_step. destruct t; auto.
       destruct item as [k|ref|ref|ref|it|it|pb]; auto.
       - tok_step. destruct (is_delim t); auto.
@@ -397,13 +408,13 @@ Section Totality.
     unfold decode_tokens. destruct (lookup e root) as [[props|props|]|]; try exact I.
     - apply safe_bind; auto; [apply expect_spec|]. intros r Hr. apply expect_len in Hr.
       destruct (level_all (S (length ts))) as (_ & Hob & _).
-      assert (Hb := Hob props r [] [] ltac:(lia)).
-      destruct (object_body orc e me (S (length ts)) props r [] []) as [[m' r']| | |]; cbn [okish] in Hb; try contradiction; [|exact I].
+      assert (Hb := Hob 0%N props r [] [] ltac:(lia)).
+      destruct (object_body orc e me (S (length ts)) 0 props r [] []) as [[m' r']| | |]; cbn [okish] in Hb; try contradiction; [|exact I].
       cbn [obind fst snd]. apply safe_bind; auto; [apply expect_spec|]. intros; exact I.
     - apply safe_bind; auto; [apply expect_spec|]. intros r Hr. apply expect_len in Hr.
       destruct (level_all (S (length ts))) as (_ & _ & Hoo & _).
-      assert (Hb := Hoo props r [] [] [] None ltac:(lia)).
-      destruct (oneof_body orc e me (S (length ts)) props r [] [] [] None) as [[m' r']| | |]; cbn [okish] in Hb; try contradiction; [|exact I].
+      assert (Hb := Hoo 0%N props r [] [] [] None ltac:(lia)).
+      destruct (oneof_body orc e me (S (length ts)) 0 props r [] [] [] None) as [[m' r']| | |]; cbn [okish] in Hb; try contradiction; [|exact I].
       cbn [obind fst snd]. apply safe_bind; auto; [apply expect_spec|]. intros; exact I.
   Qed.
 End Totality.
@@ -428,3 +439,12 @@ Theorem map_set_go_value_no_panic orc k key t es : is_panic (map_set_go_value or
 Proof. apply safe_iff, map_set_go_value_safe. Qed.
 Theorem oneof_post_no_panic props m found constrain : is_panic (oneof_post props m found constrain) = false.
 Proof. apply safe_iff, oneof_post_safe. Qed.
+
+(* the nesting of property values is bounded by a constant, whatever the input *)
+Theorem nesting_bounded d dp p ts m seen :
+  (max_nesting_depth <= d)%N -> member_with d dp p ts m seen = Err "exceeded max depth"%string.
+Proof.
+  intros H. unfold member_with.
+  replace (max_nesting_depth <? d + 1)%N with true; [reflexivity|].
+  symmetry. apply N.ltb_lt. lia.
+Qed.
